@@ -620,6 +620,29 @@ func storeGenFacts() {
 	}
 	l.p("]")
 	l.p("def tlvTypes : List (String × Nat) := %s", storeLeanPairs(typeNames, true))
+	// 2b. which tlv.Stream methods move the bytes (the P2P variants cap a record at 65535 bytes, the plain ones do not)
+	l.p("/-- function ↦ the `tlv.Stream` encode / decode methods it calls, in source order -/")
+	l.p("def tlvStreamCalls : List (String × List String) := [")
+	for i, fn := range tlvFuncs {
+		var ms []string
+		if fd := findFunc(files, fn); fd != nil {
+			ast.Inspect(fd, func(n ast.Node) bool {
+				if c, ok := n.(*ast.CallExpr); ok {
+					if sel, ok := c.Fun.(*ast.SelectorExpr); ok &&
+						(strings.HasPrefix(sel.Sel.Name, "Decode") || strings.HasPrefix(sel.Sel.Name, "Encode")) {
+						ms = append(ms, sel.Sel.Name)
+					}
+				}
+				return true
+			})
+		}
+		sep := ","
+		if i == len(tlvFuncs)-1 {
+			sep = ""
+		}
+		l.p("  (%q, %s)%s", fn, leanStrList(ms), sep)
+	}
+	l.p("]")
 	l.p("def accountStateVersionedMask : Nat := %s", intConst(cdb, "clientdb", "accountStateVersionedMask"))
 
 	// 3. states without LatestTx: evaluated semantically for every defined account state
